@@ -2,6 +2,8 @@ package main
 
 import (
 	"fmt"
+	"os"
+	"strconv"
 	"go/ast"
 	"go/token"
 	"go/types"
@@ -739,7 +741,7 @@ func (fr *Frame) dryRunLoop(li *loopInfo, h *ssa.BasicBlock, st *State, reach st
 		saveGhosts[k] = v
 	}
 	g.dry++
-	log := &writeLog{snapN: snapN}
+	log := &writeLog{snapN: snapN, snapAlloc: snapAlloc, snapBase: snapBase}
 	prevLog := g.wlog
 	g.wlog = log
 	var failure any
@@ -817,6 +819,8 @@ func (fr *Frame) execBlockDry(b *ssa.BasicBlock, li *loopInfo) {
 }
 
 type writeLog struct {
+	snapAlloc int
+	snapBase  string
 	snapN int
 	recs  []writeRec
 	seen  map[string]bool
@@ -843,21 +847,24 @@ func (l *writeLog) variant(term string) bool {
 }
 
 func (l *writeLog) add(g *Gen, key, elemSort, addr, pattern string) {
+	origAddr := addr
+	if addr != "" {
+		addr = g.sc.expandAddr(addr)
+	}
 	if l.seen == nil {
 		l.seen = map[string]bool{}
+	}
+	if addr != "" && l.inLoopAlloc(rootToken(addr)) {
+		addr = ""
+		pattern = "fresh"
 	}
 	if addr != "" && l.variant(addr) {
 		// try the elements pattern: (Elem base idx) with invariant base
 		if root := rootToken(addr); g.freshNames[root] || strings.HasPrefix(root, "(Obj ") {
 			// a cell of an object allocated inside the loop body: cannot alias anything older
 			pattern = "fresh"
-		} else if strings.HasPrefix(addr, "(Elem ") {
-			base := firstArg(addr[len("(Elem "):])
-			if !l.variant(base) {
-				pattern = "elems:" + base
-			} else {
-				pattern = "shape:"
-			}
+		} else if arr, ok := innerElemArr(addr); ok && !l.variant(arr) {
+			pattern = "elems:" + arr
 		} else if sh, ok := addrShape(addr); ok {
 			pattern = "shape:" + sh
 		} else {
@@ -867,6 +874,9 @@ func (l *writeLog) add(g *Gen, key, elemSort, addr, pattern string) {
 	}
 	if pattern != "" && strings.HasPrefix(pattern, "elems:") && l.variant(pattern) {
 		pattern = "shape:"
+	}
+	if os.Getenv("GOWP_DEBUG_WRITES") != "" {
+		fmt.Fprintf(os.Stderr, "write %s addr=%q pattern=%q (orig %q)\n", key, addr, pattern, origAddr)
 	}
 	k := key + "|" + addr + "|" + pattern
 	if l.seen[k] {
@@ -1129,4 +1139,26 @@ func rootToken(addr string) string {
 			return cur
 		}
 	}
+}
+
+// innerElemArr returns the array of the (Elem arr idx) layer inside Fld wrappers.
+func innerElemArr(addr string) (string, bool) {
+	cur := addr
+	for strings.HasPrefix(cur, "(Fld ") {
+		cur = firstArg(cur[len("(Fld "):])
+	}
+	if strings.HasPrefix(cur, "(Elem ") {
+		return firstArg(cur[len("(Elem "):]), true
+	}
+	return "", false
+}
+
+// inLoopAlloc recognises (Obj (+ base K)) allocated after the dry-run snapshot.
+func (l *writeLog) inLoopAlloc(root string) bool {
+	p := "(Obj (+ " + l.snapBase + " "
+	if !strings.HasPrefix(root, p) {
+		return false
+	}
+	k, err := strconv.Atoi(strings.TrimSuffix(root[len(p):], "))"))
+	return err == nil && k > l.snapAlloc
 }
